@@ -57,3 +57,20 @@ Theorem C02_write_sites_are_the_models :
    ("pkglint.go", "Pkglint.checkExecutable", "CurrPath.Chmod", 1%nat)]%list.
 Proof. exact (eq_refl _). Qed.
 Print Assumptions C02_write_sites_are_the_models.
+
+(* non-vacuity: the same history (a replacement, a save) on the same freshly loaded
+   file performs no operation with --show-autofix and two (tmp + rename) with --autofix *)
+Definition ex2_file : str := [47;102]%N%list.
+Definition ex2_groups : list (list str * str) := [ ([[97;10]%N], [97]%N) ]%list.
+Definition ex2_events : list event :=
+  [ ETxn (Txn 0 [68;46]%N [OReplaceAfter [] [97]%N [98]%N]); ESave ]%list.
+Example C02_witness :
+  fresh (init_state ex2_file ex2_groups) /\
+  (exists st, run (Opts false true []) [] ex2_events (init_state ex2_file ex2_groups) = Ok st /\
+     s_ops st = [] /\ List.length (s_log st) = 1%nat) /\
+  (exists st, run (Opts true false []) [] ex2_events (init_state ex2_file ex2_groups) = Ok st /\
+     s_ops st = [OpWrite (ex2_file ++ tmp_suffix) [98;10]%N; OpRename (ex2_file ++ tmp_suffix) ex2_file]%list).
+Proof.
+  split; [repeat constructor|].
+  split; eexists; (split; [vm_compute; reflexivity|]); try split; vm_compute; reflexivity.
+Qed.
